@@ -407,6 +407,7 @@ def _execute(scn, ctx, store, clock):
                 ctx.violate('C04', 'load_apply', 'load_catalog(apply_filters=True)-differs-from-filtering-loaded',
                             {'op': oi, 'got_n': len(rows_of(fl[1])), 'want_n': len(want)})
                 return
+        ctx.log('op', oi, label, [[r[0] for r in rows_of(x)] for x in handles])
         if not check_all(oi, label):
             return
         ctx.state((len(handles), tuple(min(3, len(x)) for x in models_[:4])))
